@@ -623,6 +623,210 @@ theorem int_flux_vs_injected_partial (O : EllOracle ℝ) (fuel : Nat) (cc xmin y
   simp only at h
   rw [← hbeam]; exact h
 
+/-! ### (5) the truth lies inside the bounds `estimate_lmfit_parinfo` hands to lmfit -/
+
+theorem sampling_eq_hand (ln2 f2c amp0 rms ic oc A B xs ys : ℝ) :
+    Gen.C01.sampling ln2 f2c amp0 rms ic oc A B xs ys = samplingHand ln2 f2c amp0 rms ic oc A B xs ys := by
+  simp only [Gen.C01.sampling, samplingHand] <;> c01_leaf
+theorem ampMinPos_eq_hand (ln2 f2c amp0 rms ic oc A B xs ys : ℝ) :
+    Gen.C01.ampMinPos ln2 f2c amp0 rms ic oc A B xs ys = ampMinPosHand ln2 f2c amp0 rms ic oc A B xs ys := by
+  simp only [Gen.C01.ampMinPos, ampMinPosHand] <;> c01_leaf
+theorem ampMaxPos_eq_hand (ln2 f2c amp0 rms ic oc A B xs ys : ℝ) :
+    Gen.C01.ampMaxPos ln2 f2c amp0 rms ic oc A B xs ys = ampMaxPosHand ln2 f2c amp0 rms ic oc A B xs ys := by
+  simp only [Gen.C01.ampMaxPos, ampMaxPosHand, samplingHand] <;> c01_leaf
+theorem ampMinNeg_eq_hand (ln2 f2c amp0 rms ic oc A B xs ys : ℝ) :
+    Gen.C01.ampMinNeg ln2 f2c amp0 rms ic oc A B xs ys = ampMinNegHand ln2 f2c amp0 rms ic oc A B xs ys := by
+  simp only [Gen.C01.ampMinNeg, ampMinNegHand, samplingHand] <;> c01_leaf
+theorem ampMaxNeg_eq_hand (ln2 f2c amp0 rms ic oc A B xs ys : ℝ) :
+    Gen.C01.ampMaxNeg ln2 f2c amp0 rms ic oc A B xs ys = ampMaxNegHand ln2 f2c amp0 rms ic oc A B xs ys := by
+  simp only [Gen.C01.ampMaxNeg, ampMaxNegHand] <;> c01_leaf
+theorem xoLim_eq_hand (ln2 f2c amp0 rms ic oc A B xs ys : ℝ) :
+    Gen.C01.xoLim ln2 f2c amp0 rms ic oc A B xs ys = xoLimHand ln2 f2c amp0 rms ic oc A B xs ys := by
+  simp only [Gen.C01.xoLim, xoLimHand] <;> c01_leaf
+theorem sMin_eq_hand (ln2 f2c amp0 rms ic oc A B xs ys : ℝ) :
+    Gen.C01.sxMin ln2 f2c amp0 rms ic oc A B xs ys = sMinHand ln2 f2c amp0 rms ic oc A B xs ys ∧
+    Gen.C01.syMin ln2 f2c amp0 rms ic oc A B xs ys = sMinHand ln2 f2c amp0 rms ic oc A B xs ys := by
+  constructor
+  · simp only [Gen.C01.sxMin, sMinHand] <;> c01_leaf
+  · simp only [Gen.C01.syMin, sMinHand] <;> c01_leaf
+theorem sMax_eq_hand (ln2 f2c amp0 rms ic oc A B xs ys : ℝ) :
+    Gen.C01.sxMax ln2 f2c amp0 rms ic oc A B xs ys = sMaxHand ln2 f2c amp0 rms ic oc A B xs ys ∧
+    Gen.C01.syMax ln2 f2c amp0 rms ic oc A B xs ys = sMaxHand ln2 f2c amp0 rms ic oc A B xs ys := by
+  constructor
+  · simp only [Gen.C01.sxMax, sMaxHand, sxInitHand] <;> c01_leaf
+  · simp only [Gen.C01.syMax, sMaxHand, sxInitHand] <;> c01_leaf
+theorem sInit_eq_hand (ln2 f2c amp0 rms ic oc A B xs ys : ℝ) :
+    Gen.C01.sxInit ln2 f2c amp0 rms ic oc A B xs ys = sxInitHand ln2 f2c amp0 rms ic oc A B xs ys ∧
+    Gen.C01.syInit ln2 f2c amp0 rms ic oc A B xs ys = syInitHand ln2 f2c amp0 rms ic oc A B xs ys := by
+  constructor
+  · simp only [Gen.C01.sxInit, sxInitHand] <;> c01_leaf
+  · simp only [Gen.C01.syInit, syInitHand] <;> c01_leaf
+
+theorem cc2fwhm_sq (ln2 : ℝ) (h : 0 < ln2) : Gen.C01.cc2fwhm ln2 ^ 2 = 8 * ln2 := by
+  rw [cc2fwhm_eq_hand]; simp only [cc2fwhmHand]; rsimp
+  rw [mul_pow, Real.sq_sqrt (by linarith)]; ring
+
+/-- the σ of the beam's minor axis, `B · FWHM2CC`, squared -/
+theorem beam_sigma_sq (ln2 B : ℝ) (h : 0 < ln2) : (B * Gen.C01.fwhm2cc ln2) ^ 2 = B ^ 2 / (8 * ln2) := by
+  have hc := cc2fwhm_pos ln2 h
+  have h1 := (cc2fwhm_mul_fwhm2cc ln2 h).1
+  have hf : Gen.C01.fwhm2cc ln2 = 1 / Gen.C01.cc2fwhm ln2 := by
+    field_simp; linarith [h1]
+  rw [hf, mul_pow, div_pow, one_pow, cc2fwhm_sq ln2 h]; ring
+
+/-- **pixel_value_bounds**: a pixel within half a pixel (in x and in y) of the centre of an elliptical Gaussian whose
+    two sigmas are at least the σ of the beam's minor axis (`B·FWHM2CC`, B the minor FWHM of the pixel beam in
+    pixels) holds between `exp(−ln2·2/B²) = 2^(−2/B²)` and 1 times the peak — for EVERY orientation.
+    Hypotheses: noise-free sample of the model; source no narrower than the beam's minor axis in any direction;
+    `FWHM2CC = 1/(2√(2 ln 2))` with the SAME `ln2` as in the `2 ** …` of the bound. -/
+theorem pixel_value_bounds (ln2 B x0 y0 sx sy th i j : ℝ) (hln2 : 0 < ln2) (hB : 0 < B)
+    (hsx : B * Gen.C01.fwhm2cc ln2 ≤ sx) (hsy : B * Gen.C01.fwhm2cc ln2 ≤ sy)
+    (hi : |i - x0| ≤ 1 / 2) (hj : |j - y0| ≤ 1 / 2) :
+    Real.exp (-(ln2 * (2 / B ^ 2))) ≤ Gen.C01.gauss i j 1 x0 y0 sx sy th ∧ Gen.C01.gauss i j 1 x0 y0 sx sy th ≤ 1 := by
+  have hc := cc2fwhm_pos ln2 hln2
+  have hfpos : 0 < Gen.C01.fwhm2cc ln2 := by
+    have h1 := (cc2fwhm_mul_fwhm2cc ln2 hln2).1
+    by_contra hneg
+    have : Gen.C01.cc2fwhm ln2 * Gen.C01.fwhm2cc ln2 ≤ 0 := mul_nonpos_of_nonneg_of_nonpos (le_of_lt hc) (not_lt.mp hneg)
+    linarith
+  have hm : 0 < B * Gen.C01.fwhm2cc ln2 := mul_pos hB hfpos
+  have hq := quad_form_le (i - x0) (j - y0) (Real.cos (th * (Real.pi / 180))) (Real.sin (th * (Real.pi / 180))) sx sy
+    (B * Gen.C01.fwhm2cc ln2) (Real.cos_sq_add_sin_sq _) hm hsx hsy hi hj
+  rw [beam_sigma_sq ln2 B hln2] at hq
+  have hk : 1 / 2 / (B ^ 2 / (8 * ln2)) = 2 * (ln2 * (2 / B ^ 2)) := by
+    field_simp; ring
+  rw [hk] at hq
+  rw [gauss_eq_hand]
+  simp only [gaussHand]; rsimp
+  rw [one_mul]
+  constructor
+  · apply Real.exp_le_exp.mpr; nlinarith [hq.2]
+  · have h0 := Real.exp_le_exp.mpr (show
+      (((i - x0) * Real.cos (th * (Real.pi / 180)) + (j - y0) * Real.sin (th * (Real.pi / 180))) ^ 2 / sx ^ 2 +
+        ((i - x0) * Real.sin (th * (Real.pi / 180)) - (j - y0) * Real.cos (th * (Real.pi / 180))) ^ 2 / sy ^ 2) * (-1 / 2) ≤ 0
+      by nlinarith [hq.1])
+    rw [Real.exp_zero] at h0; exact h0
+
+/-- the Gaussian is linear in its amplitude -/
+theorem gauss_amp (x y P xo yo sx sy th : ℝ) :
+    Gen.C01.gauss x y P xo yo sx sy th = P * Gen.C01.gauss x y 1 xo yo sx sy th := by
+  simp only [gauss_eq_hand, gaussHand]; rsimp; ring
+
+/-- **peak_le_brightest_times_sampling** — the theorem behind fix C01-01: for a noise-free positive source no narrower
+    than the beam, if SOME pixel within half a pixel of the centre is no brighter than the brightest pixel `vmax`,
+    then `peak ≤ vmax · 2^(2/B²)` (`2^e = exp(ln2·e)`), hence `peak ≤ vmax · sampling`. -/
+theorem peak_le_brightest_times_sampling (ln2 B P x0 y0 sx sy th i j vmax : ℝ) (hln2 : 0 < ln2) (hB : 0 < B)
+    (hsx : B * Gen.C01.fwhm2cc ln2 ≤ sx) (hsy : B * Gen.C01.fwhm2cc ln2 ≤ sy)
+    (hi : |i - x0| ≤ 1 / 2) (hj : |j - y0| ≤ 1 / 2) (hP : 0 < P)
+    (hmax : Gen.C01.gauss i j P x0 y0 sx sy th ≤ vmax) :
+    P ≤ vmax * Real.exp (ln2 * (2 / B ^ 2)) := by
+  have hb := (pixel_value_bounds ln2 B x0 y0 sx sy th i j hln2 hB hsx hsy hi hj).1
+  rw [gauss_amp] at hmax
+  have he : Real.exp (-(ln2 * (2 / B ^ 2))) * Real.exp (ln2 * (2 / B ^ 2)) = 1 := by
+    rw [← Real.exp_add]; simp
+  have hpos : 0 < Real.exp (ln2 * (2 / B ^ 2)) := Real.exp_pos _
+  calc P = P * (Real.exp (-(ln2 * (2 / B ^ 2))) * Real.exp (ln2 * (2 / B ^ 2))) := by rw [he, mul_one]
+    _ = (P * Real.exp (-(ln2 * (2 / B ^ 2)))) * Real.exp (ln2 * (2 / B ^ 2)) := by ring
+    _ ≤ (P * Gen.C01.gauss i j 1 x0 y0 sx sy th) * Real.exp (ln2 * (2 / B ^ 2)) := by
+        apply mul_le_mul_of_nonneg_right _ (le_of_lt hpos)
+        exact mul_le_mul_of_nonneg_left hb (le_of_lt hP)
+    _ ≤ vmax * Real.exp (ln2 * (2 / B ^ 2)) := mul_le_mul_of_nonneg_right hmax (le_of_lt hpos)
+
+theorem samplingHand_ge (ln2 f2c amp0 rms ic oc A B xs ys : ℝ) :
+    Real.exp (ln2 * (2 / B ^ 2)) ≤ samplingHand ln2 f2c amp0 rms ic oc A B xs ys ∧
+    1 ≤ samplingHand ln2 f2c amp0 rms ic oc A B xs ys := by
+  simp only [samplingHand]; rsimp
+  constructor
+  · exact le_max_right _ _
+  · exact le_trans (by norm_num) (le_max_left _ _)
+
+/-- **truth_within_bounds_pos**: for a noise-free POSITIVE isolated Gaussian at least as large as the beam whose
+    brightest pixel (ib, jb) — value `amp0` — lies within half a pixel of the centre, the true (amp, xo, yo, sx, sy)
+    satisfy the bounds `estimate_lmfit_parinfo` gives lmfit (theta is unbounded):
+      amp_min ≤ P ≤ amp_max,  |x0 − ib| ≤ xo_lim,  |y0 − jb| ≤ yo_lim,  s_min ≤ sx, sy,
+    and sx, sy ≤ s_max when the island box is large enough (`hsize`, explicit: (max(xsize, ysize)+1)·√2·FWHM2CC ≥ σ).
+    Further explicit hypotheses: rms ≥ 0, clips ≥ 0, pixel beam with A² + B² ≥ 1 (so that xo_lim ≥ ½). -/
+theorem truth_within_bounds_pos (ln2 rms ic oc A B xs ys P x0 y0 sx sy th ib jb : ℝ)
+    (hln2 : 0 < ln2) (hB : 0 < B) (hAB : 1 ≤ A ^ 2 + B ^ 2) (hrms : 0 ≤ rms) (hic : 0 ≤ ic) (hP : 0 < P)
+    (hsx : B * Gen.C01.fwhm2cc ln2 ≤ sx) (hsy : B * Gen.C01.fwhm2cc ln2 ≤ sy)
+    (hi : |ib - x0| ≤ 1 / 2) (hj : |jb - y0| ≤ 1 / 2)
+    (hsize : max sx sy ≤ (max xs ys + 1) * Real.sqrt 2 * Gen.C01.fwhm2cc ln2) :
+    let f2c := Gen.C01.fwhm2cc ln2
+    let amp0 := Gen.C01.gauss ib jb P x0 y0 sx sy th
+    Gen.C01.ampMinPos ln2 f2c amp0 rms ic oc A B xs ys ≤ P ∧ P ≤ Gen.C01.ampMaxPos ln2 f2c amp0 rms ic oc A B xs ys ∧
+    |x0 - ib| ≤ Gen.C01.xoLim ln2 f2c amp0 rms ic oc A B xs ys ∧ |y0 - jb| ≤ Gen.C01.xoLim ln2 f2c amp0 rms ic oc A B xs ys ∧
+    Gen.C01.sxMin ln2 f2c amp0 rms ic oc A B xs ys ≤ sx ∧ Gen.C01.syMin ln2 f2c amp0 rms ic oc A B xs ys ≤ sy ∧
+    sx ≤ Gen.C01.sxMax ln2 f2c amp0 rms ic oc A B xs ys ∧ sy ≤ Gen.C01.syMax ln2 f2c amp0 rms ic oc A B xs ys := by
+  intro f2c amp0
+  have hb := pixel_value_bounds ln2 B x0 y0 sx sy th ib jb hln2 hB hsx hsy hi hj
+  have hamp0 : amp0 = P * Gen.C01.gauss ib jb 1 x0 y0 sx sy th := gauss_amp _ _ _ _ _ _ _ _
+  have hg0 : 0 < Gen.C01.gauss ib jb 1 x0 y0 sx sy th := lt_of_lt_of_le (Real.exp_pos _) hb.1
+  have hamp0pos : 0 < amp0 := by rw [hamp0]; exact mul_pos hP hg0
+  have hamp0le : amp0 ≤ P := by rw [hamp0]; nlinarith [hb.2]
+  have hpk := peak_le_brightest_times_sampling ln2 B P x0 y0 sx sy th ib jb amp0 hln2 hB hsx hsy hi hj hP (le_refl _)
+  have hs := samplingHand_ge ln2 f2c amp0 rms ic oc A B xs ys
+  have hfpos : 0 < f2c := by
+    have h1 := (cc2fwhm_mul_fwhm2cc ln2 hln2).1
+    have hc := cc2fwhm_pos ln2 hln2
+    by_contra hneg
+    have : Gen.C01.cc2fwhm ln2 * Gen.C01.fwhm2cc ln2 ≤ 0 := mul_nonpos_of_nonneg_of_nonpos (le_of_lt hc) (not_lt.mp hneg)
+    linarith
+  have hlim : (1 : ℝ) / 2 ≤ Gen.C01.xoLim ln2 f2c amp0 rms ic oc A B xs ys := by
+    rw [xoLim_eq_hand]; simp only [xoLimHand, R.real_hypot]; rsimp
+    have : (1 : ℝ) ≤ Real.sqrt (A * A + B * B) := by
+      rw [show (1 : ℝ) = Real.sqrt 1 by simp]; apply Real.sqrt_le_sqrt; nlinarith
+    norm_num; linarith
+  refine ⟨?_, ?_, ?_, ?_, ?_, ?_, ?_, ?_⟩
+  · rw [ampMinPos_eq_hand]; simp only [ampMinPosHand]; rsimp
+    have : min (oc * rms) amp0 ≤ amp0 := min_le_right _ _
+    norm_num; nlinarith
+  · rw [ampMaxPos_eq_hand]; simp only [ampMaxPosHand]; rsimp
+    have h1 : amp0 * Real.exp (ln2 * (2 / B ^ 2)) ≤ amp0 * samplingHand ln2 f2c amp0 rms ic oc A B xs ys :=
+      mul_le_mul_of_nonneg_left hs.1 (le_of_lt hamp0pos)
+    have h2 : 0 ≤ ic * rms := mul_nonneg hic hrms
+    linarith
+  · rw [abs_sub_comm]; exact le_trans hi hlim
+  · rw [abs_sub_comm]; exact le_trans hj hlim
+  · rw [(sMin_eq_hand ln2 f2c amp0 rms ic oc A B xs ys).1]; simp only [sMinHand]; rsimp
+    have : 0 < B * f2c := mul_pos hB hfpos
+    norm_num; nlinarith [hsx]
+  · rw [(sMin_eq_hand ln2 f2c amp0 rms ic oc A B xs ys).2]; simp only [sMinHand]; rsimp
+    have : 0 < B * f2c := mul_pos hB hfpos
+    norm_num; nlinarith [hsy]
+  · rw [(sMax_eq_hand ln2 f2c amp0 rms ic oc A B xs ys).1]; simp only [sMaxHand]; rsimp
+    exact le_trans (le_trans (le_max_left _ _) hsize) (le_max_left _ _)
+  · rw [(sMax_eq_hand ln2 f2c amp0 rms ic oc A B xs ys).2]; simp only [sMaxHand]; rsimp
+    exact le_trans (le_trans (le_max_right _ _) hsize) (le_max_left _ _)
+
+/-- **truth_within_bounds_neg**: the amplitude bounds of the NEGATIVE branch (`amp ≤ 0`) contain a negative true peak
+    under the same hypotheses (position and shape bounds do not depend on the sign) -/
+theorem truth_within_bounds_neg (ln2 rms ic oc A B xs ys P x0 y0 sx sy th ib jb : ℝ)
+    (hln2 : 0 < ln2) (hB : 0 < B) (hrms : 0 ≤ rms) (hic : 0 ≤ ic) (hP : P < 0)
+    (hsx : B * Gen.C01.fwhm2cc ln2 ≤ sx) (hsy : B * Gen.C01.fwhm2cc ln2 ≤ sy)
+    (hi : |ib - x0| ≤ 1 / 2) (hj : |jb - y0| ≤ 1 / 2) :
+    let f2c := Gen.C01.fwhm2cc ln2
+    let amp0 := Gen.C01.gauss ib jb P x0 y0 sx sy th
+    Gen.C01.ampMinNeg ln2 f2c amp0 rms ic oc A B xs ys ≤ P ∧ P ≤ Gen.C01.ampMaxNeg ln2 f2c amp0 rms ic oc A B xs ys := by
+  intro f2c amp0
+  have hb := pixel_value_bounds ln2 B x0 y0 sx sy th ib jb hln2 hB hsx hsy hi hj
+  have hamp0 : amp0 = P * Gen.C01.gauss ib jb 1 x0 y0 sx sy th := gauss_amp _ _ _ _ _ _ _ _
+  have hg0 : 0 < Gen.C01.gauss ib jb 1 x0 y0 sx sy th := lt_of_lt_of_le (Real.exp_pos _) hb.1
+  have hamp0neg : amp0 < 0 := by rw [hamp0]; exact mul_neg_of_neg_of_pos hP hg0
+  have hPle : P ≤ amp0 := by rw [hamp0]; nlinarith [hb.2]
+  have hpk := peak_le_brightest_times_sampling ln2 B (-P) x0 y0 sx sy th ib jb (-amp0) hln2 hB hsx hsy hi hj
+    (by linarith) (by rw [gauss_amp, hamp0]; ring_nf; exact le_refl _)
+  have hs := samplingHand_ge ln2 f2c amp0 rms ic oc A B xs ys
+  constructor
+  · rw [ampMinNeg_eq_hand]; simp only [ampMinNegHand]; rsimp
+    have h1 : (-amp0) * Real.exp (ln2 * (2 / B ^ 2)) ≤ (-amp0) * samplingHand ln2 f2c amp0 rms ic oc A B xs ys :=
+      mul_le_mul_of_nonneg_left hs.1 (by linarith)
+    have h2 : 0 ≤ ic * rms := mul_nonneg hic hrms
+    nlinarith
+  · rw [ampMaxNeg_eq_hand]; simp only [ampMaxNegHand]; rsimp
+    have h1 : amp0 ≤ max (-oc * rms) amp0 := le_max_right _ _
+    have h2 : amp0 ≤ max (-(oc * rms)) amp0 := le_max_right _ _
+    norm_num; linarith
+
 /-! ### Non-vacuity -/
 
 /-- a concrete oracle obeying the laws: a uniform scale of 1/360 degree per pixel, identity on
